@@ -34,7 +34,7 @@ from cobra.io import sbml as S  # noqa: E402
 VARIANTS = ["path", "pathlib", "handle", "string"]
 SAFE_R = ["r1", "R_2", "ATPM", "EX_glc_e", "biomass_c", "r_lower", "x9"]
 SAFE_M = ["a_c", "b_e", "glc__D_e", "m1_c", "h2o_c", "q_c"]
-SAFE_G = ["g1", "b0001", "g_5", "gene9", "G_x", "y7", "zz"]
+SAFE_G = ["g1", "b0001", "g_5", "gene9", "G_x", "y7", "zz", "w8"]
 ID_ALPHABET = list("abzAZ019__") + list(".-[]()/:~'=+ ,*@#") + ["é", "µ"]
 
 
@@ -112,7 +112,7 @@ def safe_ids(spec):
     s = json.loads(json.dumps(spec))
     rmap = {r["id"]: SAFE_R[i] for i, r in enumerate(s["rxns"])}
     mmap = {m["id"]: SAFE_M[i] for i, m in enumerate(s["mets"])}
-    gmap = {g: SAFE_G[i] for i, g in enumerate(richgen.G_IDS)}
+    gmap = {g: SAFE_G[i] for i, g in enumerate(richgen.G_IDS + ["gü1"])}
     for m in s["mets"]:
         m["id"] = mmap[m["id"]]
     for r in s["rxns"]:
